@@ -20,6 +20,10 @@ type extState struct {
 	store *MemStore
 	cache cache.IssuanceChainCache
 	real  *lru.IssuanceChainCache
+	// leaves put into the backend by the driver whose extra data names an issuance-chain hash the store
+	// does not hold (identity hash -> variant): "an unknown hash ... produces an error response"
+	foreign  map[string]string
+	nForeign int
 }
 
 func (w *World) drawExternal() {
@@ -143,4 +147,85 @@ func (x *extState) extraOK(st *reflog.Leaf, b []byte) bool {
 		}
 	}
 	return bytes.Equal(b, st.Extra)
+}
+
+// foreignHashOption: put a leaf into the backend that refers to an issuance chain by a hash the store
+// does not hold - unknown, a known hash with bytes appended, or a known hash cut short (the TLS
+// structure admits 0..256 bytes). Such a leaf can be there after a restore, a migration or a storage
+// mix-up; serving it must fail, never hand out another chain's data.
+func (x *extState) foreignHashOption() (kernel.Option, bool) {
+	w := x.w
+	if x.nForeign >= 2 || !w.s.FaultsOn() {
+		return kernel.Option{}, false
+	}
+	var src *reflog.Leaf
+	for _, st := range w.be.Log.Seq {
+		if w.be.Creator[string(st.Identity)] == nil {
+			continue
+		}
+		e := st.Extra
+		if n := len(e); n >= 34 && e[n-34] == 0 && e[n-33] == 32 && len(st.Value) > 10 {
+			src = st
+			break
+		}
+	}
+	if src == nil {
+		return kernel.Option{}, false
+	}
+	return kernel.Option{Key: "foreign hash leaf", Weight: 1, Apply: func() {
+		t := w.s.T
+		e := src.Extra
+		head, hash := e[:len(e)-34], e[len(e)-32:]
+		var h []byte
+		var variant string
+		switch t.Intn(3) {
+		case 0:
+			variant, h = "hash.extended", append(bytes.Clone(hash), bytes.Repeat([]byte{0xa5}, []int{1, 4, 32}[t.Intn(3)])...)
+		case 1:
+			variant, h = "hash.unknown", sha(append([]byte("no such chain"), hash...))
+		default:
+			variant, h = "hash.truncated", bytes.Clone(hash[:31])
+		}
+		// (an empty hash is not generated: it is how the front end itself records "no issuance chain",
+		// e.g. for a trusted root submitted on its own)
+		extra := append(bytes.Clone(head), byte(len(h)>>8), byte(len(h)))
+		extra = append(extra, h...)
+		value := bytes.Clone(src.Value)
+		value[9] ^= byte(1 + x.nForeign) // another timestamp: another leaf for the same certificate
+		id := sha(append([]byte("foreign"), value...))
+		w.be.mu.Lock()
+		w.be.Log.Queue(value, extra, id, time.Now().UnixNano())
+		w.be.mu.Unlock()
+		if x.foreign == nil {
+			x.foreign = map[string]string{}
+		}
+		x.foreign[string(id)] = variant
+		x.nForeign++
+		w.s.Fault("store.foreign-" + variant)
+		w.s.Logf("foreign leaf with %s (%d hash bytes) queued", variant, len(h))
+	}}, true
+}
+
+// foreignAt: the variant if the leaf at idx is a foreign-hash leaf.
+func (x *extState) foreignAt(idx int64) string {
+	if x == nil || idx < 0 || idx >= int64(len(x.w.be.Log.Seq)) {
+		return ""
+	}
+	return x.foreign[string(x.w.be.Log.Seq[idx].Identity)]
+}
+
+// touchesForeign: may serving op have needed the chain of a foreign-hash leaf?
+func (x *extState) touchesForeign(op *Op) bool {
+	if x == nil || len(x.foreign) == 0 {
+		return false
+	}
+	if op.Kind == "get-entry-and-proof" {
+		return x.foreignAt(op.A) != ""
+	}
+	for i := op.A; i <= op.B && i < int64(len(x.w.be.Log.Seq)); i++ {
+		if x.foreignAt(i) != "" {
+			return true
+		}
+	}
+	return false
 }
